@@ -238,7 +238,7 @@ func runC20(c *Ctx) {
 	}
 	runtime.GC()
 	time.Sleep(50 * time.Millisecond)
-	g0 := runtime.NumGoroutine()
+	g0 := implGoroutines()
 	for k := 0; k < cycles; k++ {
 		// the same directory, spelt differently from cycle to cycle
 		w.Dir = []string{wd, wd + "/", filepath.Join(filepath.Dir(wd), ".", filepath.Base(wd)) + "/.", filepath.Dir(wd) + "//" + filepath.Base(wd)}[k%4]
@@ -254,14 +254,17 @@ func runC20(c *Ctx) {
 		w.V = nil
 	}
 	w.Dir = wd
-	time.Sleep(300 * time.Millisecond)
-	g1 := runtime.NumGoroutine()
+	g1 := implGoroutines()
+	for k := 0; k < 50 && g1 > g0; k++ {
+		time.Sleep(100 * time.Millisecond)
+		g1 = implGoroutines()
+	}
 	nCases += cycles
 	c.Count("cycles")
 	c.Rep.Extra["goroutines_before_cycles"] = g0
 	c.Rep.Extra["goroutines_after_cycles"] = g1
-	if g1 > g0+4 {
-		c.Fail("", fmt.Sprintf("%d provision/cleanup cycles grew the number of goroutines from %d to %d", cycles, g0, g1), map[string]int{"cycles": cycles, "before": g0, "after": g1})
+	if g1 > g0 {
+		c.Fail("", fmt.Sprintf("%d provision/cleanup cycles left %d goroutines of the validator behind (before: %d): %s", cycles, g1-g0, g0, implGoroutineSummary()), map[string]int{"cycles": cycles, "before": g0, "after": g1})
 	}
 	for _, e := range listDir(wd) {
 		if tmpRe.MatchString(strings.Split(e, string(filepath.Separator))[0]) {
@@ -278,7 +281,7 @@ func runC20(c *Ctx) {
 		w.Delay = 120 * time.Millisecond
 		runtime.GC()
 		time.Sleep(50 * time.Millisecond)
-		gb := runtime.NumGoroutine()
+		gb := implGoroutines()
 		n := 6
 		for k := 0; k < n; k++ {
 			w.Cfg.WorkDir = w.Dir
@@ -294,15 +297,20 @@ func runC20(c *Ctx) {
 			}
 		}
 		w.Delay = 0
-		time.Sleep(600 * time.Millisecond)
-		ga := runtime.NumGoroutine()
+		// goroutines that belong to the code under test (idle HTTP keep-alive connections of the transport do not
+		// count); a pass that was in flight when Cleanup came ends by itself: wait for that, up to 8 s
+		ga := implGoroutines()
+		for k := 0; k < 80 && ga > gb; k++ {
+			time.Sleep(100 * time.Millisecond)
+			ga = implGoroutines()
+		}
 		nCases += n
 		c.Count("cleanup-during-startup-pass")
 		c.Nontrivial("cleanup-during-startup-pass")
 		c.Rep.Extra["goroutines_before_overlapping_cycles"] = gb
 		c.Rep.Extra["goroutines_after_overlapping_cycles"] = ga
-		if ga > gb+3 {
-			c.Fail("", fmt.Sprintf("%d provision/cleanup cycles in which Cleanup arrives during the ticker's start-up pass grew the number of goroutines from %d to %d", n, gb, ga), map[string]int{"cycles": n, "before": gb, "after": ga})
+		if ga > gb {
+			c.Fail("", fmt.Sprintf("%d provision/cleanup cycles in which Cleanup arrives during the ticker's start-up pass left %d goroutines of the validator behind (before: %d): %s", n, ga-gb, gb, implGoroutineSummary()), map[string]int{"cycles": n, "before": gb, "after": ga})
 		}
 		w.Cfg = saved
 	}
@@ -338,4 +346,52 @@ func runC20(c *Ctx) {
 	c.WriteCoqSharded("cases_C20", "From Verif Require Import Base Bytes FsNames RunFs.\nOpen Scope N_scope.\n", "fscase", items, "fs_mismatches", 100)
 	c.Rep.Cases = nCases
 	c.Rep.Rule = "a sandbox directory is diffed around a validator (disk storage) whose certificates name 18 hostile distribution points (traversal, encoded separators and NUL, 10 KB, unicode, temp-pattern look-alikes, near-equal pairs), served good or garbage; restart on the same work_dir; start-up sweep over 8 foreign look-alike names and 4 temp-pattern names (files and directories); refreshes of loaded entries that meet garbage / a bad signature / a good list; provision/cleanup cycles on one work_dir (spelt with and without trailing slash, /./ and //) with goroutine count; provisioning that fails half-way followed by Cleanup and a new provisioning; cycles in which Cleanup arrives while the ticker's start-up pass is still downloading; location strings pairwise distinct incl. 12 near-equal ones (%2F vs /, query values, trailing slash, %41 vs A, + vs %20 vs %2B), each must bring its own store; the model's hex naming and sweep recogniser are evaluated on the same digests / names"
+}
+
+// implGoroutines counts the goroutines that are executing (or blocked in) code of the validator.
+func implGoroutines() int {
+	n := 0
+	for _, g := range goroutineStacks() {
+		if strings.Contains(g, "gr33nbl00d/caddy-revocation-validator") {
+			n++
+		}
+	}
+	return n
+}
+
+func implGoroutineSummary() string {
+	seen := map[string]int{}
+	for _, g := range goroutineStacks() {
+		if !strings.Contains(g, "gr33nbl00d/caddy-revocation-validator") {
+			continue
+		}
+		for _, l := range strings.Split(g, "\n") {
+			if strings.Contains(l, "gr33nbl00d/caddy-revocation-validator") && !strings.HasPrefix(l, "\t") {
+				if i := strings.Index(l, "("); i > 0 {
+					l = l[:i]
+				}
+				seen[l]++
+				break
+			}
+		}
+	}
+	var out []string
+	for k, v := range seen {
+		out = append(out, fmt.Sprintf("%s x%d", k, v))
+	}
+	sort.Strings(out)
+	return strings.Join(out, "; ")
+}
+
+func goroutineStacks() []string {
+	buf := make([]byte, 1<<20)
+	for {
+		n := runtime.Stack(buf, true)
+		if n < len(buf) {
+			buf = buf[:n]
+			break
+		}
+		buf = make([]byte, 2*len(buf))
+	}
+	return strings.Split(string(buf), "\n\n")
 }
